@@ -7,6 +7,7 @@ from .types import PT, INT, BOOL, EXT, NONE, STR, Opt, Seq, Set, Arr, Map, Tup
 from .values import (
     SV,
     ObjRef,
+    View,
     EnumVal,
     EnumClass,
     RecordClass,
@@ -265,6 +266,10 @@ class StmtMixin:
         if isinstance(place, ast.Subscript):
             base = self.eval(place.value, st)
             idx = self.eval(place.slice, st)
+            if isinstance(base, View) or (isinstance(base, ObjRef) and base.cls in getattr(self.E, "view_classes", ())):
+                view = View(base.obj, base.keys + (idx,)) if isinstance(base, View) else View(base, (idx,))
+                self.call_method(view, "set", [new], {}, st, None)
+                return
             if isinstance(base, ObjRef):
                 self.call_method(base, "__setitem__", [idx, new], {}, st, None)
                 return
@@ -329,6 +334,7 @@ class StmtMixin:
         t = self.ops.truthy(self.eval(s.test, st))
         self.oblige(st, t, f"assert@L{self.cur_line}", "assert", text=ast.unparse(s.test))
         st.assume(t)
+        self.E.hyp_origin[str(t)] = "cut"
         # `assert x is not None` narrows Optional[T] to T (as a type checker would)
         tt = s.test
         if (isinstance(tt, ast.Compare) and len(tt.ops) == 1 and isinstance(tt.ops[0], ast.IsNot) and isinstance(tt.left, ast.Name)
